@@ -111,6 +111,10 @@ class DispatchTable(object):
         for c in self.cells.values():
             if c.ctor is not None:
                 c.cls = self._class_of(c.ctor.func, c)
+                if c.cls is None:
+                    r = self._factory(c.ctor, c)
+                    if r is not None:
+                        c.ctor, c.cls = r
         if sum(1 for c in self.cells.values() if c.cls is not None) < max(10, len(self.cells) // 2):
             # the chain tests type names but the classes come from somewhere else (a table looked up before the chain)
             self.cells, self.else_body, self.tail = {}, [], []
@@ -348,11 +352,61 @@ class DispatchTable(object):
             return None
         if self._ctor_class(e.func) is not None:
             return e
+        # self.factory(Class, args..): a method all of whose returns construct the class it is handed
+        if isinstance(e.func, ast.Attribute) and isinstance(e.func.value, ast.Name) and e.func.value.id == 'self' and getattr(self.func, '_cls', None) is not None:
+            r0 = self.func._cls.find_method(e.func.attr)
+            if r0 is not None:
+                h = r0[1]
+                hp = [a.arg for a in h.args.args][1:]
+                bind = dict(zip(hp, e.args))
+                for k in e.keywords:
+                    if k.arg:
+                        bind[k.arg] = k.value
+                rets = [n for n in ast.walk(h) if isinstance(n, ast.Return) and n.value is not None]
+                if rets and all(isinstance(r_.value, ast.Call) and isinstance(r_.value.func, ast.Name) and r_.value.func.id in bind
+                                and self._ctor_class(bind[r_.value.func.id]) is not None for r_ in rets):
+                    from . import sem
+                    rv = rets[0].value
+                    env = {k: v for k, v in bind.items()}
+                    call = sem.subst(rv, env)
+                    if isinstance(call, ast.Call) and self._ctor_class(call.func) is not None:
+                        return call
         for a in e.args[:1]:
             r = self._find_ctor(a, depth + 1)
             if r is not None:
                 return r
         return None
+
+    def _factory(self, e, cell):
+        """`self.factory(<class expression>, args..)` where every return of the method constructs the class it is handed:
+        -> (the constructor call with the arguments substituted, the class) or None"""
+        if not (isinstance(e, ast.Call) and isinstance(e.func, ast.Attribute) and isinstance(e.func.value, ast.Name) and e.func.value.id == 'self'):
+            return None
+        owner = getattr(self.func, '_cls', None)
+        r0 = owner.find_method(e.func.attr) if owner is not None else None
+        if r0 is None:
+            return None
+        h = r0[1]
+        hp = [a.arg for a in h.args.args][1:]
+        bind = dict(zip(hp, e.args))
+        for k in e.keywords:
+            if k.arg:
+                bind[k.arg] = k.value
+        rets = [n for n in ast.walk(h) if isinstance(n, ast.Return) and n.value is not None]
+        if not rets or not all(isinstance(r_.value, ast.Call) and isinstance(r_.value.func, ast.Name) and r_.value.func.id in bind for r_ in rets):
+            return None
+        pn = rets[0].value.func.id
+        if any(r_.value.func.id != pn for r_ in rets):
+            return None
+        cls = self._class_of(bind[pn], cell)
+        if cls is None:
+            return None
+        from . import sem
+        call = sem.subst(rets[0].value, dict(bind))
+        if not isinstance(call, ast.Call):
+            return None
+        call.lineno, call.col_offset = getattr(e, 'lineno', self.func.lineno), getattr(e, 'col_offset', 0)
+        return call, cls
 
     def _class_of(self, fn, cell, depth=0):
         """Class constructed by `fn(...)` in this cell: a class name, TABLE[type_name], TABLE.get(type_name, Default),
